@@ -46,6 +46,13 @@ func execC06(c Case) string {
 	case "wifdec":
 		d, err := bchutil.DecodeWIF(string(unhx(a[0])))
 		return wifObs(d, err)
+	case "wifnil": // NewWIF without a network is refused (no nil dereference later)
+		priv, _ := bchec.PrivKeyFromBytes(bchec.S256(), unhx(a[0]))
+		w, err := bchutil.NewWIF(priv, nil, a[1] == "1")
+		if err != nil && w == nil {
+			return "refused"
+		}
+		return "accepted"
 	case "wifhist": // wifhist <netid> <compress> <key> <steps>: one WIF value whose exported fields change between calls
 		priv, _ := bchec.PrivKeyFromBytes(bchec.S256(), unhx(a[2]))
 		w, err := bchutil.NewWIF(priv, &chaincfg.Params{PrivateKeyID: byte(atoi(a[0]))}, a[1] == "1")
@@ -180,6 +187,7 @@ func genC06(r *Rng, tier string, emit func(Case)) {
 			}
 		}
 	}
+	e("wifnil", "nonet", hx(genScalar(r)), b2s(r.Bool()))
 	// edge scalars
 	for _, k := range [][]byte{make([]byte, 32), secpN, bytesFF(32)} {
 		e("wif", "edge", "128", "1", hx(k))
